@@ -46,7 +46,7 @@ var _ uuid.UUID
 // and of every pushed item holds of all items afterwards and of every popped item. The queue proofs hold for every
 // interpretation of qP; a client fixes one (e.g. "created during this call") to learn that what it pops is something it pushed.
 //@ ufunc qP(*PriorityQueueItem) bool
-//@ spec itemsOK(h heap.Interface, n int) bool = forall c int :: 0 <= c && c < n ==> qs(h)[c] != nil && !isnan(qs(h)[c].priority) && qP(qs(h)[c])
+//@ spec itemsOK(h heap.Interface, n int) bool = forall c int :: 0 <= c && c < n ==> qs(h)[c] != nil && allocated(qs(h)[c]) && istype(qs(h)[c], PriorityQueueItem) && !isnan(qs(h)[c].priority) && qP(qs(h)[c])
 //@ spec hdyn(h heap.Interface) bool = (isMin(h) || isMax(h)) && h.pay != 0
 //@ spec sameTail(h heap.Interface, n int) bool = true
 
@@ -118,7 +118,7 @@ var _ uuid.UUID
 //@ props C19
 //@ ensures [no-new-items] forall it *PriorityQueueItem :: allocated(it) ==> old(allocated(it))
 //@ requires [wf] wfh(h)
-//@ requires [item] istype(x, *PriorityQueueItem) && x.pay != 0 && !isnan(x.(*PriorityQueueItem).priority) && qP(x.(*PriorityQueueItem))
+//@ requires [item] istype(x, *PriorityQueueItem) && x.pay != 0 && !isnan(x.(*PriorityQueueItem).priority) && qP(x.(*PriorityQueueItem)) && allocated(x.(*PriorityQueueItem)) && istype(x.(*PriorityQueueItem), PriorityQueueItem)
 //@ ensures [wf] wfh(h)
 //@ ensures [len] len(qs(h)) == old(len(qs(h))) + 1
 //@ ensures [fresh-or-inplace] qs(h).ref == old(qs(h).ref) || fresh(qs(h))
@@ -204,7 +204,7 @@ var _ uuid.UUID
 //@ ensures [source-intact] wfpq(pq) && qs(pq.queue) == old(qs(pq.queue)) && forall k int :: qs(pq.queue)[k] == old(qs(pq.queue)[k])
 //@ modifies nothing
 
-//@ spec pushable(items []*PriorityQueueItem) bool = forall i int :: 0 <= i && i < len(items) ==> items[i] != nil && !isnan(items[i].priority) && !(items[i].priority < 0) && qP(items[i])
+//@ spec pushable(items []*PriorityQueueItem) bool = forall i int :: 0 <= i && i < len(items) ==> items[i] != nil && allocated(items[i]) && istype(items[i], PriorityQueueItem) && !isnan(items[i].priority) && !(items[i].priority < 0) && qP(items[i])
 
 //@ func utils.initializePriorityQueue
 //@ props C19
